@@ -86,6 +86,37 @@ def read_text_exact(path):
         return f.read()
 
 
+PIPE_DOCS = {}        # '/dev/fd/N' -> (document text, read fd): a valid message that is not a regular file
+
+
+def make_pipe(doc):
+    """A path the library can read a message from although it is no regular file: the read end
+    of a pipe that already holds the whole document (small enough for the pipe buffer)."""
+    data = doc.encode('utf-8')
+    if len(data) > 30000:
+        return None
+    r, w = os.pipe()
+    os.write(w, data)
+    os.close(w)
+    path = '/dev/fd/%d' % r
+    PIPE_DOCS[path] = (doc, r)
+    return path
+
+
+def close_pipes(files):
+    for f, k in files:
+        if k == 'pipe' and f in PIPE_DOCS:
+            try:
+                os.close(PIPE_DOCS.pop(f)[1])
+            except OSError:
+                pass
+
+
+EA_SHAPES_OUTSIDE_TABLE = [('REPLACE', False, True), ('REPLACE', True, True), ('DELETE', True, False), ('DELETE', True, True),
+                           ('INSERT', False, True), ('INSERT', True, True), ('SWAP', True, False), ('SWAP', True, True),
+                           ('MOVE', False, True), ('MOVE', True, False)]
+
+
 def make_files(s, rng, tmpdir, n, for_merge=False):
     """Returns list of (path, kind) with kind in valid/completed/nonxml/unknown/missing/dir."""
     pool = gen.text_pool('hostile')
@@ -105,8 +136,12 @@ def make_files(s, rng, tmpdir, n, for_merge=False):
                                   pretty=rng.random() < 0.5)
             else:
                 doc = gen.rand_message(rng, state, kind, 10 + k, ids, pool=pool, shape_weights=(0.9, 0.05, 0.05, 0))
-            write_doc(rng, name, doc)
-            files.append((name, 'valid'))
+            pipe = make_pipe(doc) if (rng.random() < 0.08 and os.path.exists('/dev/fd')) else None
+            if pipe:
+                files.append((pipe, 'pipe'))
+            else:
+                write_doc(rng, name, doc)
+                files.append((name, 'valid'))
         elif r < 0.68:
             ro = s.load(ro_txt)
             ro2, err, _ = s.add(ro, s.load(B.msg_doc('roDelete', 99)))
@@ -116,6 +151,15 @@ def make_files(s, rng, tmpdir, n, for_merge=False):
         elif r < 0.76:
             open(name, 'w').write(rng.choice(['not xml at all', '<mos><unclosed>', '', '{"json": 1}']))
             files.append((name, 'nonxml'))
+        elif r < 0.80:
+            # a roElementAction with a known operation whose target / source shape is not in the library's table
+            op_, ti_, si_ = rng.choice(EA_SHAPES_OUTSIDE_TABLE)
+            open(name, 'w').write(
+                '<mos><mosID>M</mosID><messageID>%d</messageID><roElementAction operation="%s"><roID>RO</roID>'
+                '<element_target><storyID>A</storyID>%s</element_target><element_source>%s</element_source>'
+                '</roElementAction></mos>' % (40 + k, op_, '<itemID>i1</itemID>' if ti_ else '',
+                                              '<itemID>i2</itemID>' if si_ else '<storyID>B</storyID>'))
+            files.append((name, 'unknown'))
         elif r < 0.84:
             open(name, 'w').write(rng.choice(['<mos><messageID>1</messageID><foo/></mos>', '<html/>',
                                               '<mos><roElementAction operation="FROB"><roID>x</roID>'
@@ -137,7 +181,10 @@ def check_detect_inspect(s, rng, tmpdir, idx, inspect):
     # make sure the interesting pattern good-bad-good occurs often
     if rng.random() < 0.4 and len(files) >= 3:
         files[1] = (os.path.join(tmpdir, 'missing-mid.mos.xml'), 'missing')
-    judge_detect_inspect(s, 'inspect' if inspect else 'detect', files)
+    try:
+        judge_detect_inspect(s, 'inspect' if inspect else 'detect', files)
+    finally:
+        close_pipes(files)
 
 
 def judge_detect_inspect(s, cmd, files):
@@ -146,10 +193,12 @@ def judge_detect_inspect(s, cmd, files):
     rc, out, err = run_cli(argv)
     lines = out.splitlines()
     pos = 0
-    pattern = ''.join({'valid': 'v', 'completed': 'c', 'nonxml': 'x', 'unknown': 'u', 'missing': 'm', 'dir': 'd'}[k]
+    pattern = ''.join({'valid': 'v', 'completed': 'c', 'nonxml': 'x', 'unknown': 'u', 'missing': 'm', 'dir': 'd', 'pipe': 'v'}[k]
                       for _, k in files)
     wit = {'type': 'cli', 'judge': 'detect_inspect', 'cmd': cmd, 'argv': argv,
-           'files': [(f, k, (open(f, 'rb').read().decode('latin-1') if os.path.isfile(f) else None)) for f, k in files]}
+           'files': [(f, k, (PIPE_DOCS[f][0].encode('utf-8').decode('latin-1') if k == 'pipe' else
+                             open(f, 'rb').read().decode('latin-1') if os.path.isfile(f) else None)) for f, k in files]}
+    s.hist['cli:pipe-paths'] += sum(1 for _, k in files if k == 'pipe')
     problems = []
     exact = ''            # the report, character for character (None once the library's own inspect() raised)
     MosFile = s.mt.MosFile
@@ -157,7 +206,8 @@ def judge_detect_inspect(s, cmd, files):
         EV.STATE['quiet'] = EV.STATE.get('quiet', 0) + 1
         try:
             try:
-                mo = MosFile.from_file(f)
+                # (the pipe was emptied by the command: the library reads the same text from a string)
+                mo = MosFile.from_string(PIPE_DOCS[f][0]) if kind == 'pipe' else MosFile.from_file(f)
             except Exception:
                 mo = None
         finally:
@@ -590,6 +640,8 @@ def replay(s, data):
         s.notes.append('witness type not replayable')
         return
     for p, k, content in w['files']:
+        if k == 'pipe':
+            continue
         if content is not None:
             os.makedirs(os.path.dirname(p), exist_ok=True)
             open(p, 'wb').write(content.encode('latin-1'))
@@ -597,7 +649,15 @@ def replay(s, data):
             os.makedirs(p, exist_ok=True)
     try:
         if w.get('judge') == 'detect_inspect':
-            judge_detect_inspect(s, w['cmd'], [(p, k) for p, k, _ in w['files']])
+            files = []
+            for p, k, content in w['files']:
+                if k == 'pipe':
+                    p = make_pipe(content.encode('latin-1').decode('utf-8'))     # a fresh pipe: the number may differ
+                files.append((p, k))
+            try:
+                judge_detect_inspect(s, w['cmd'], files)
+            finally:
+                close_pipes(files)
         elif w.get('judge') == 'merge':
             q = w['params']
             pre = None if q['preexisting'] is None else q['preexisting'].encode('latin-1')
